@@ -235,7 +235,7 @@ def case_coq(c, r):
 
 def correspondence(pid, tier, seed):
     rng = random.Random(seed * 733 + 29)
-    n = 4000 if tier == 'quick' else 60000
+    n = lib.size(4000, 60000, tier)
     cases = []
     while len(cases) < n:
         c = gen_case(rng)
